@@ -181,3 +181,36 @@ def _json_contract(fname):
 
 for _f in ("validate_encoded", "decode"):
     _json_contract(_f)
+
+
+# ---------------------------------------------------------------------------------------- decoded lists (C18: what validate() and level 3 check)
+@register
+class IdentifierListValidateDecoded(Contract):
+    id = "Field_identifier_list_gfa2_validate_decoded"
+    fn = "gfapy/field/identifier_list_gfa2.py::validate_decoded"
+    props = ("C18", "C04", "C07")
+    fragment = "L"
+    doc = ("the items of a U line as a decoded value (a list of identifiers): accepted iff the list is not empty and every element is a GFA2 "
+           "identifier ([!-~]+); ValueError for the empty list, FormatError for a malformed element; all list lengths (loop invariant)")
+
+    def cases(self, ctx):
+        g = ctx.gfapy
+        n = z3.Int("n_items")
+        el = z3.Const("item", z3.ArraySort(I, Str))
+        k, j = z3.Int("k"), z3.Int("j")
+        items = SList(n, z3.Lambda([k], k), lambda t: el[t])
+        IDENT = rx.fullmatch_lang(r"[!-~]+")
+        ok = lambda t: z3.InRe(el[t], IDENT)
+        inv = {("validate_decoded", 0): dict(inv=lambda i, st: z3.And(i <= n, z3.ForAll([j], z3.Implies(z3.And(0 <= j, j < i), ok(j)))),
+                                             mod={"elem": lambda nm: fresh(nm, Str)})}
+        allok = z3.ForAll([j], z3.Implies(z3.And(0 <= j, j < n), ok(j)))
+        def post(kd, v, st):
+            if kd == "raise":
+                if v.cls is g.ValueError:
+                    return n == 0
+                if v.cls is g.FormatError:
+                    return z3.And(n > 0, z3.Not(allok))
+                return z3.BoolVal(False)
+            return z3.And(n > 0, allok)
+        return [Case("strings", [items], post, pre=[n >= 0], invariants=inv, symbols=dict(n_items=n), minimize=[n],
+                     replay=lambda w: {"target": "bounded.replay_helpers:field_to_s_cases"}, confirm=battery_confirm)]
